@@ -758,6 +758,18 @@ func respMonitor(w *world, reqs map[string]M, tid string, resp map[string]any, t
 			}
 		}
 	}
+	if monitors["C09"] && kind == "AcquireLock" && resp["k"] == "lock" && num(resp["status"]) == 20100 {
+		// "its lease (last acquire or heartbeat time plus ttl)": the lease end reported for a granted lock is the clock of the
+		// acquire — some instant between the request's submission and its answer — plus the requested ttl, for every ttl (0 too)
+		c, _ := reqs[tid]["c"].(map[string]any)
+		l, _ := resp["lock"].(map[string]any)
+		if c != nil && l != nil {
+			ttl, exp := num(c["ttl"]), num(l["expiresAt"])
+			if exp < w.submitAt[tid]+ttl || exp > t+ttl {
+				return "C09", "", fmt.Sprintf("lock on %v granted to %v with ttl %d at a clock between %d and %d reports its lease end as %d", c["resourceId"], c["executionId"], ttl, w.submitAt[tid], t, exp)
+			}
+		}
+	}
 	if monitors["C03"] {
 		c, _ := reqs[tid]["c"].(map[string]any)
 		if kind == "CreatePromiseAndTask" && c != nil {
@@ -2192,7 +2204,77 @@ func (r *runner) generate(g *gen.G, cfg Cfg, bg bool, o genOpts) ([]Step, int, M
 		}
 		return settle(4, 1)
 	}
+	// two completions of one claimed task racing: both read the task while it is claimed, A's guarded update is executed
+	// first, B's then changes no row — B has to look again and answer what a server handling it after A would answer
+	taskCompletionRaceScenario := func() (M, bool) {
+		id := fmt.Sprintf("tcr%d", nreq)
+		mk := func(k t_api.Kind) (*t_api.Request, string) {
+			nreq++
+			tid := fmt.Sprintf("r%d", nreq)
+			return &t_api.Request{Kind: k, Tags: map[string]string{"id": tid, "name": k.String(), "protocol": "dst"}}, tid
+		}
+		execTids := func(tids ...string) (M, bool) {
+			items := []Item{}
+			for _, t := range tids {
+				for _, h := range w.aio.pending {
+					if h.sqe.Submission.Kind == t_aio.Store && h.tid == t {
+						items = append(items, Item{Tid: h.tid, Seq: h.seq, Mode: "ok"})
+					}
+				}
+			}
+			if len(items) == 0 {
+				return nil, false
+			}
+			return do(Step{Op: "exec", Items: items})
+		}
+		rq, tid := mk(t_api.CreatePromise)
+		rq.CreatePromise = &t_api.CreatePromiseRequest{Id: id, Timeout: now + 500000, Tags: map[string]string{"resonate:invoke": "default"}, Param: promise.Value{Headers: map[string]string{}, Data: []byte{}}}
+		if info, pred := do(Step{Op: "submit", Tid: tid, Req: canon.Req(rq)}); info != nil {
+			return info, pred
+		}
+		if info, pred := settle(4, 1); info != nil {
+			return info, pred
+		}
+		rq, tid = mk(t_api.ClaimTask)
+		rq.ClaimTask = &t_api.ClaimTaskRequest{Id: "__invoke:" + id, Counter: 1, ProcessId: "w0", Ttl: 400000}
+		if info, pred := do(Step{Op: "submit", Tid: tid, Req: canon.Req(rq)}); info != nil {
+			return info, pred
+		}
+		if info, pred := settle(5, 1); info != nil {
+			return info, pred
+		}
+		if len(w.aio.pending) > 0 {
+			return nil, false
+		}
+		ra, ta := mk(t_api.CompleteTask)
+		ra.CompleteTask = &t_api.CompleteTaskRequest{Id: "__invoke:" + id, Counter: 1}
+		rb, tb := mk(t_api.CompleteTask)
+		rb.CompleteTask = &t_api.CompleteTaskRequest{Id: "__invoke:" + id, Counter: 1}
+		tickNow := func() (M, bool) { now++; return do(Step{Op: "tick", T: now}) }
+		seq := []func() (M, bool){
+			func() (M, bool) { return do(Step{Op: "submit", Tid: ta, Req: canon.Req(ra)}) },
+			func() (M, bool) { return do(Step{Op: "submit", Tid: tb, Req: canon.Req(rb)}) },
+			tickNow,                                   // both read
+			func() (M, bool) { return execTids(ta, tb) }, // both see the task claimed
+			tickNow,                                   // both write their guarded update
+			func() (M, bool) { return execTids(ta, tb) }, // A's takes effect, B's changes no row
+			tickNow,
+		}
+		for _, f := range seq {
+			if info, pred := f(); info != nil {
+				return info, pred
+			}
+		}
+		return settle(5, 1)
+	}
 	for len(steps) < o.steps {
+		if hasKind(t_api.CompleteTask) && hasKind(t_api.ClaimTask) && hasKind(t_api.CreatePromise) && g.R.Intn(70) == 0 {
+			if info, pred := taskCompletionRaceScenario(); info != nil {
+				return steps, len(steps) - 1, info, pred
+			}
+			r.counts["task_completion_races"]++
+			continue
+		}
 		if (monitors["C01"] || monitors["C03"] || monitors["C04"]) && hasKind(t_api.CreatePromise) && hasKind(t_api.CompletePromise) && g.R.Intn(60) == 0 {
 			if info, pred := completionRaceScenario(); info != nil {
 				return steps, len(steps) - 1, info, pred
